@@ -122,7 +122,7 @@ def run(ctx):
                     # B entries are differences of nearly equal terms, and impl and twin round them differently
                     T = periods_f[j]
                     extra = 0.0 if T == 0 else 2.3e-16 / (6.2831853 / T * dt_f) ** 3
-                    msg, g = cmp_budget([float(x) for x in arr], m, Fraction(1e-9 + 4 * extra), scale=peak, abs_floor=Fraction(1, 10**300))
+                    msg, g = cmp_budget([float(x) for x in arr], m, Fraction(1e-9 + 16 * extra), scale=peak, abs_floor=Fraction(1, 10**300))
                     ctx.gap('response_series/' + name, g)
                     if msg:
                         return f"period[{j}] series {name}: {msg}"
@@ -313,4 +313,187 @@ _run_main = run
 def run(ctx):
     _run_main(ctx)
     extras(ctx)
+    ctx.flush()
+
+
+# ---- extras2 (harness extension hx_a): large instances, containers / dtypes, arrays handed out earlier -------------------------------------
+#
+# Not demanded: a joint rescaling of dt and the periods by a power of two (the response would scale by 4^j, 2^j, 1) -- compute_a_and_b forms
+# w ** 3 through libm pow, which need not commute with a power of two bit for bit; sdof.single_elastic_response / slow_response_spectra (a
+# rectangle-rule Duhamel sum, O(dt) accurate: not the exact solution the property speaks about).
+
+def _x2_phi(x):
+    """phi1(x) = (e^x - 1)/x and phi2(x) = (e^x - 1 - x)/x^2 for complex x, by their Taylor series where the closed form cancels"""
+    x = complex(x)
+    if abs(x) < 0.5:
+        p1, p2, t = 0j, 0j, 1 + 0j
+        for k in range(1, 26):          # t = x^(k-1)/(k-1)!
+            p1 += t / k
+            p2 += t / (k * (k + 1))
+            t *= x / k
+        return p1, p2
+    e = np.exp(x)
+    return (e - 1) / x, (e - 1 - x) / (x * x)
+
+
+def _x2_exact_row(a, dt, T, xi):
+    """the exact zero-initial-condition solution of u'' + 2 xi w u' + w^2 u = a(t), w = 2 pi / T (true pi), a(t) piecewise linear, at the sample
+    instants -- written independently of Nigam & Jennings' matrices: with lam = -xi w + i w_d the complex variable y = u' - conj(lam) u obeys
+    y' = lam y + f, which integrates in closed form over a step with linear f; one complex first-order recurrence (scipy lfilter), O(n)"""
+    from scipy.signal import lfilter
+    w = 2 * math.pi / T
+    wd = w * math.sqrt(1 - xi * xi)
+    lam = complex(-xi * w, wd)
+    p1, p2 = _x2_phi(lam * dt)
+    i0, i1 = dt * p1, dt * p2
+    f = np.asarray(a, dtype=float)          # the library's sign convention: the right-hand side is +a(t)
+    g = np.concatenate([[0.0], f[:-1] * (i0 - i1) + f[1:] * i1])
+    y = lfilter([1.0], [1.0, -np.exp(lam * dt)], g.astype(complex))
+    u = y.imag / wd
+    return u, y.real - xi * w * u
+
+
+def x2_large(ctx):
+    """LARGE instances (records of 5 000 - 60 000 samples, more than 2^20 period x sample cells): the clauses of C01 evaluated in O(cells) --
+    identical arrays from the three entry points, the third series, the T = 0 row, zero initial state; the exact solution (independent O(n)
+    closed-form integration with the true 2 pi, property tolerance) on a few rows; decomposition (row i == the single-period call, the response
+    to the first m samples == the first m columns, both bit for bit)"""
+    import eqsig
+    from eqsig import sdof
+    rng = ctx.rng
+    quick = ctx.tier == 'quick'
+    jobs = [(16000, 2, 2), (5500, 200, 3), (60000, 1, 1)] if quick else [(20000, 2, 3), (5500, 200, 3), (60000, 1, 3), (5000, 300, 3), (8192, 140, 3), (33000, 40, 3), (5001, 215, 2)]
+    for n, P, n_entry in jobs:
+        dt = rng.choice([0.01, 0.005, 0.02])
+        a = gen.noise_record(rng, n) * np.exp(-((np.arange(n) - n / 3) / (n / 5)) ** 2)
+        a[n - 1 - rng.randrange(20)] = rng.choice([-2.0, 2.0])         # something happens at the very end of the record as well
+        periods = np.exp(np.linspace(math.log(rng.uniform(3, 12) * dt), math.log(rng.uniform(200, 2000) * dt), P)) if P > 1 else np.array([rng.uniform(8, 80) * dt])
+        lead0 = rng.random() < 0.5
+        if lead0:
+            periods = np.concatenate([[0.0], periods])
+        NP = len(periods)
+        xi = rng.choice([0.0, 0.02, 0.05, 0.3])
+        inputs = {'acc': f'gaussian noise x gaussian envelope, n={n}, one sample of +-2 among the last 20 (seed-derived)', 'dt': dt, 'xi': xi, 'cells': NP * n,
+                  'periods': ('0, ' if lead0 else '') + f'{P} log-spaced {periods[-P] / dt:.4g}*dt .. {periods[-1] / dt:.4g}*dt'}
+        ctx.hist(f'large/{NP}x{n}')
+        ctx.count_case(('x2-large', n, P, dt, xi, lead0, a[:8].tobytes()), True, sample={'fn': 'response_series (large instance)', **inputs})
+        snap = a.copy()
+        r1 = call_impl(sdof.response_series, a, dt, periods, xi)
+        if r1[0] != 'ok':
+            ctx.oracle('response_series returns on its domain', False, inputs, detail=r1)
+            continue
+        u, v, ac = r1[1]
+        others = [('AccSignal.response_series', lambda: eqsig.AccSignal(a, dt).response_series(response_times=periods, xi=xi)),
+                  ('nigam_and_jennings_response', lambda: sdof.nigam_and_jennings_response(a, dt, list(periods), xi))][:n_entry - 1]
+        for name, f in others:
+            r = call_impl(f)
+            ctx.oracle('all entry points return identical arrays [large instance]', r[0] == 'ok' and all(np.array_equal(x, y) for x, y in zip(r[1], r1[1])), {**inputs, 'entry': name})
+        ctx.oracle('input record unchanged', bool(np.array_equal(snap, a)), inputs)
+        ctx.oracle('C01.d shapes are len(periods) x len(record) [large instance]', u.shape == v.shape == ac.shape == (NP, n), inputs)
+        if not (u.shape == v.shape == ac.shape == (NP, n)):
+            continue
+        s = 1 if lead0 else 0
+        if lead0:
+            ctx.oracle('C01.e leading T=0: zero displacement/velocity rows, sign-flipped record as acceleration [large instance]',
+                       bool(np.all(u[0] == 0) and np.all(v[0] == 0) and np.array_equal(ac[0], -a)), inputs)
+        w = 6.2831853 / periods[s:]
+        want = -2 * xi * w[:, None] * v[s:] - (w ** 2)[:, None] * u[s:]
+        scale = np.maximum(np.abs(want).max(axis=1), 1e-300)[:, None]
+        ctx.oracle('C01.d third series == -(2 xi w v + w^2 u) sample by sample [large instance]', bool(np.all(np.abs(ac[s:] - want) <= 1e-12 * scale)), inputs)
+        ctx.oracle('zero initial conditions [large instance]', bool(np.all(u[:, 0] == 0) and np.all(v[:, 0] == 0)), inputs)
+        ctx.oracle('all three series are finite [large instance]', bool(np.all(np.isfinite(u)) and np.all(np.isfinite(v)) and np.all(np.isfinite(ac))), inputs)
+        # the exact solution on a few rows
+        amax = float(np.max(np.abs(a)))
+        for j in sorted(set([s, NP - 1] + [rng.randrange(s, NP) for _ in range(2)])):
+            T = float(periods[j])
+            ru, rv = _x2_exact_row(a, dt, T, xi)
+            tol = prop_tol(dt, T, n)
+            wn = 2 * math.pi / T
+            pu, pv = max(float(np.max(np.abs(ru))), 1e-300), max(float(np.max(np.abs(rv))), 1e-300)
+            durT = n * dt / T
+            # same reading of 'relative to the series peak' as the 40-digit reference above: the phase drift of 6.2831853 vs 2 pi acts on the natural
+            # scale a_max/w (velocity), a_max/w^2 (displacement)
+            eu = float(max(0.0, np.max(np.abs(u[j] - ru)) - 2e-8 * (1 + durT) * amax / wn ** 2) / pu)
+            ev = float(max(0.0, np.max(np.abs(v[j] - rv)) - 2e-8 * (1 + durT) * amax / wn) / pv)
+            ctx.hist('large/exact-solution rows')
+            ctx.gap('vs-exact-solution(large instances)/u,v (relative to property tolerance)', max(eu, ev) / tol)
+            ctx.oracle('C01 displacement/velocity == exact solution of u\'\'+2 xi w u\'+w^2 u = a(t) (independent closed-form integration, property tolerance) [large instance]',
+                       eu <= tol and ev <= tol, {**inputs, 'period_index': j, 'period': T}, detail={'err_u': eu, 'err_v': ev, 'tol': tol})
+        # decomposition
+        j = rng.randrange(s, NP)
+        if NP > 1:
+            one = call_impl(sdof.response_series, a, dt, periods[j:j + 1], xi)
+            ctx.oracle('row i of a large job == the response computed for that period alone (==)',
+                       one[0] == 'ok' and all(np.asarray(o).shape == (1, n) and np.array_equal(np.asarray(o)[0], wq[j]) for o, wq in zip(one[1], (u, v, ac))), {**inputs, 'row': j})
+        m = rng.choice([n // 3, 4097, 5000] if quick else [n // 2, 4097, n - 1])
+        rows = sorted(set([0, j]))
+        pre = call_impl(sdof.response_series, a[:m], dt, periods[rows], xi) if not (lead0 and rows[0] != 0) else None
+        if pre is not None:
+            ctx.oracle('the response to the first m samples of a long record == the first m columns of the response to the whole record (==)',
+                       pre[0] == 'ok' and all(np.array_equal(np.asarray(o), wq[rows][:, :m]) for o, wq in zip(pre[1], (u, v, ac))), {**inputs, 'm': m, 'rows': rows})
+
+
+def x2_containers(ctx):
+    """records given as list / tuple / int32 / int64 / float32 / strided ndarray, or as a narrow integer dtype with values near the dtype's
+    limits, give exactly the response of the same numbers in float64 through all three entry points; likewise float32 / strided / integer
+    period containers; arrays returned by an earlier call are not overwritten by a later one"""
+    import eqsig
+    from eqsig import sdof
+    rng = ctx.rng
+    for it in range(14 if ctx.tier == 'quick' else 140):
+        n = gen.log_int(rng, 2, 120)
+        dt = rng.choice([0.01, 0.02, 0.005, 0.25, 0.5])
+        whole = it % 2 == 0
+        a = gen.int_record(rng, n) if whole else gen.dyadic_record(rng, n)
+        periods = [dt * rng.choice([0.5, 2.0, 6.0, 8.0, 16.0, 64.0, 512.0]) for _ in range(rng.randint(1, 3))]
+        if rng.random() < 0.3:
+            periods = [0.0] + periods
+        parr = np.array(periods)
+        xi = rng.choice([0.0, 0.05, 0.3, 0.9])
+        base = call_impl(sdof.response_series, a, dt, parr, xi)
+        ctx.count_case(('x2-cont', a.tobytes(), dt, tuple(periods), xi), gen.nontrivial_record(a))
+        if base[0] != 'ok':
+            continue
+        keep = [np.array(x, copy=True) for x in base[1]]
+        variants = [(lab, c, a) for lab, c in gen.container_variants(a)]
+        if whole:
+            variants += gen.narrow_int_variants(a)
+        for lab, c, fl in variants:
+            ctx.hist('record container=' + lab)
+            want = base if fl is a else call_impl(sdof.response_series, fl, dt, parr, xi)
+            entries = [('response_series', lambda: sdof.response_series(c, dt, parr, xi)), ('nigam_and_jennings_response', lambda: sdof.nigam_and_jennings_response(c, dt, parr, xi)),
+                       ('AccSignal.response_series', lambda: ctx.aged(eqsig.AccSignal, fl, dt).response_series(response_times=parr, xi=xi) if not isinstance(c, np.ndarray)
+                        else eqsig.AccSignal(c, dt).response_series(response_times=parr, xi=xi))]
+            for name, f in entries:
+                r = call_impl(f)
+                ok = r[0] == want[0] == 'ok' and all(np.asarray(x).dtype == np.float64 and np.array_equal(x, y) for x, y in zip(r[1], want[1]))
+                ctx.oracle('a record given as list / tuple / integer (any width) / float32 / strided ndarray gives the float64 response of the same numbers, through every entry point (==)',
+                           ok, {'acc': fl, 'dt': dt, 'periods': periods, 'xi': xi, 'container': lab, 'entry': name}, detail=None if r[0] == 'ok' else r)
+        pvs = [('strided', gen.container_variants(parr, arrays_only=True)[-1][1])]
+        if np.array_equal(parr.astype(np.float32).astype(float), parr):
+            pvs.append(('float32', parr.astype(np.float32)))
+        if np.all(parr == np.round(parr)):
+            pvs += [('int64', parr.astype(np.int64)), ('list of ints', [int(x) for x in parr])]
+        for lab, pc in pvs:
+            ctx.hist('period container=' + lab)
+            r = call_impl(sdof.response_series, a, dt, pc, xi)
+            ctx.oracle('periods given as float32 / strided / integer containers give the response of the same numbers in a float64 array (==)',
+                       r[0] == 'ok' and all(np.array_equal(x, y) for x, y in zip(r[1], base[1])), {'acc': a, 'dt': dt, 'periods': periods, 'xi': xi, 'period container': lab})
+        other = call_impl(sdof.response_series, -2.0 * a[::-1] + 1.0, dt, parr, xi)       # another record of the same length, same periods
+        later = call_impl(lambda: ctx.aged(eqsig.AccSignal, 0.5 * a + 3.0, dt).response_series(response_times=parr, xi=xi))
+        ctx.oracle('the arrays returned by response_series are not overwritten by later calls (other records of the same length, same periods)',
+                   all(np.array_equal(x, y) for x, y in zip(base[1], keep)), {'acc': a, 'dt': dt, 'periods': periods, 'xi': xi}, detail=(other[0], later[0]))
+
+
+def extras2(ctx):
+    x2_large(ctx)
+    x2_containers(ctx)
+
+
+_run_main2 = run
+
+
+def run(ctx):
+    _run_main2(ctx)
+    extras2(ctx)
     ctx.flush()
